@@ -11,6 +11,7 @@
 # Every event goes to Bus.events with a logical clock.
 
 import struct
+import threading
 
 CHANNEL = 0x0101
 TAG = 0x05
@@ -76,15 +77,20 @@ class Bus:
         self.max_inflight = 0
         self.exchange_hook = None  # callable(bus, apdu) run inside an exchange
         self.tag = None            # harness-set label copied on every event
+        self.tag_fn = None         # or a callable giving the label (thread-local contexts)
+        self.lock = threading.Lock()   # the monitors' own state is updated atomically
         self.last_drop = None
 
     def log(self, kind, **kw):
-        self.tick += 1
-        kw["t"] = self.tick
-        kw["ev"] = kind
-        if self.tag is not None:
-            kw["tag"] = self.tag
-        self.events.append(kw)
+        with self.lock:
+            self.tick += 1
+            kw["t"] = self.tick
+            kw["ev"] = kind
+            tag = self.tag_fn() if self.tag_fn is not None else self.tag
+            if tag is not None:
+                kw["tag"] = tag
+            kw["thread"] = threading.get_ident()
+            self.events.append(kw)
         return kw
 
     def arm(self, plan=None):
@@ -102,8 +108,9 @@ class Bus:
 
     def process(self, apdu, idx, fault, handle):
         """returns (data, sw) or None when nothing comes back"""
-        self.inflight += 1
-        self.max_inflight = max(self.max_inflight, self.inflight)
+        with self.lock:
+            self.inflight += 1
+            self.max_inflight = max(self.max_inflight, self.inflight)
         try:
             if self.exchange_hook is not None:
                 self.exchange_hook(self, apdu)
@@ -144,7 +151,8 @@ class Bus:
                 return None
             return data, sw
         finally:
-            self.inflight -= 1
+            with self.lock:
+                self.inflight -= 1
 
 
 # ---------------------------------------------------------------- HID ---
